@@ -15,11 +15,11 @@ MANIFEST = dict(
          "mismatch rejected, replication of element 0 guarded by a length test) read the routine together with the private helpers it "
          "calls and classify names by the public parameter they derive from (through array re-presentations and helpers that return one) and tests by what they say; linear interpolation is compared "
          "with (u-x_k)(v_{k+1}-v_k)/(x_{k+1}-x_k)+v_k where the segment index is decided to be clamp(searchsorted(x,u)-1, 0, n-2) by "
-         "complete enumeration of the integer cases however the clamp is spelled (a search over a contiguous part x[a:b] of the ascending table is the search over the whole table less a, held to the length of the part), and no input may be narrowed (cast to an integer type or to "
+         "complete enumeration of the integer cases however the clamp is spelled (a search over a contiguous part x[a:b] of the ascending table is the search over the whole table less a, held to the length of the part; a look-up in a per-segment table built by element-wise arithmetic on parts of the tables, (x[1:] - x[:-1])[k], is the arithmetic on the look-ups x[k+1] - x[k] once k is shown to lie inside the part for every value it can take), and no input may be narrowed (cast to an integer type or to "
          "another input's dtype) between the public parameter and the search / formula (data flow through array re-presentations); cov->cor and cor->cov are evaluated element by element "
-         "(loop nests over full index ranges and broadcast stores alike; a list filled by one append per pass of a full-range loop is the vector of the appended terms) and compared with the element formulas, with their symbolic "
+         "(loop nests over full index ranges, loops over the rows / entries of the inputs themselves -- directly, zipped, enumerated from 0 -- and broadcast stores alike; a list filled by one append per pass of a full-range loop is the vector of the appended terms) and compared with the element formulas, with their symbolic "
          "inverse for a positive diagonal, the float64 result buffer and the rejection of a non-positive diagonal; sigma_clip, wmedian, "
-         "get_stats and boxcar_average are executed on every path (loops unrolled up to a bound, private helpers entered, other package "
+         "get_stats and boxcar_average are executed on every path (loops unrolled up to a bound -- counted loops and loops over the entries of an index array alike --, private helpers entered, an instance of a plain record class of the module being what its __init__ stores in it, other package "
          "functions as constructors) over a term domain in which the surviving index set is a chain all -> all[keep_0] -> ... (data re-indexed from the full array by the accumulated index list and data narrowed in step with it denote the same set: subsets of subsets compose; a helper that branches on an undecided test forks the path at the calling statement; calls through a module-level dispatch table that is never changed are calls of the entry): on every "
          "path the reported statistics are those of the reported set, every keep test is the strict |x-mean| < nsig*deviation on the "
          "current set and its own statistics, the loop is left only for all-clipped / nothing-changed (count compared with the size of the "
@@ -27,7 +27,7 @@ MANIFEST = dict(
          "remaining weight exceeds half the total for all earlier positions and not for k, or, when the position is computed in closed form "
          "(cumsum, or the running difference total - cumsum spelled subtract.accumulate, + searchsorted / argmax / where / count over the weights in sorted order), is the first position whose running weight is >= "
          "half the total by the abstract meaning of these primitives; the summary helper wires "
-         "min/max/mean/deviation/error from these routines in the right roles with the right keywords, and on every path on which nsig/niter "
+         "min/max/mean/deviation/error from these routines in the right roles with the right keywords (a key popped from the caller's keywords is gone from what is handed on: an option the delegated routine names must then be passed explicitly), and on every path on which nsig/niter "
          "can be among the caller's keywords each reported statistic is taken from a sigma_clip call on the data that is given the caller's weights "
          "(reductions / wmom components over the whole array there are a violation).",
     note="Not decided: numerical values, behaviour for zero total weight, more than 3 (clipping) / 4 (median) passes of a loop (the paths are "
@@ -514,6 +514,85 @@ def _search_in_part(r, x):
     return r.replace(lambda e: _head(e) == "SEARCHSORTED" and len(e.args) == 2 and fold(e) is not None, fold)
 
 
+def _index_values(e, x, u):
+    """the integer values an index expression takes as a function of s = searchsorted(x, u) in 0..n and n = size(x), for every
+    n = 2..8: {(n, s): value}; None when e is not such an integer function (same enumeration as _clamp_classes)"""
+    SS, SIZE_, CL = sp.Function("SEARCHSORTED"), sp.Function("SIZE"), sp.Function("CLIP")
+    s_, n_ = sp.Symbol("s_", integer=True), sp.Symbol("n_", integer=True)
+    f = e.xreplace({SS(x, u): s_, SIZE_(x): n_})
+    f = f.replace(CL, lambda v_, lo, hi: sp.Min(sp.Max(v_, lo), hi))
+    if f.free_symbols - {s_, n_} or f.atoms(sp.core.function.AppliedUndef):
+        return None
+    out = {}
+    for n in range(2, 9):
+        for sv in range(0, n + 1):
+            try:
+                val = f.subs({s_: sv, n_: n})
+            except Exception:
+                return None
+            if not getattr(val, "is_Integer", False):
+                return None
+            out[(n, sv)] = int(val)
+    return out
+
+
+def _elementwise_lookups(r, x, u, tables):
+    """look-ups in per-segment tables computed once for the whole table are look-ups in the table itself:
+        (A op B)[e]   is  A[e] op B[e]      for element-wise arithmetic of arrays of one common length (scalars broadcast)
+        T[a:b][e]     is  T[e + a]          when 0 <= e < len(T[a:b]) = n + b - a  (a >= 0 written or absent, b < 0 written or absent,
+                                            no step; T one of the tables, all of which have the n entries of the abscissae)
+    so dx = x[1:] - x[:-1]; dx[k] is x[k+1] - x[k].  That e lies inside the part is decided for every value the index can take (the
+    complete enumeration of _index_values: a negative e would count from the end of the part, which is a different element of T).
+    A look-up this does not read is left as it is (and the formula rule then gives no verdict: SLICE is not in its vocabulary)."""
+    AT = sp.Function("AT")
+    none = sp.Symbol("None")
+
+    def part(t):
+        """(table, a, b) for T[a:b] / T itself, else None"""
+        if t in tables:
+            return t, 0, 0
+        if _head(t) == "SLICE" and len(t.args) == 4 and t.args[0] in tables and t.args[3] == none:
+            a, b = t.args[1], t.args[2]
+            a = sp.Integer(0) if a == none else a
+            b = sp.Integer(0) if b == none else b
+            if a.is_Integer and a >= 0 and b.is_Integer and b <= 0 and (b < 0 or t.args[2] == none):
+                return t.args[0], int(a), int(b)
+        return None
+
+    def leaves(t, out):
+        """the array operands of an element-wise arithmetic expression (False when something else occurs in it)"""
+        if t.is_number:
+            return True
+        if part(t) is not None:
+            out.append(t)
+            return True
+        if isinstance(t, (sp.Add, sp.Mul)) or (isinstance(t, sp.Pow) and t.args[1].is_number):
+            return all(leaves(a, out) for a in (t.args if not isinstance(t, sp.Pow) else t.args[:1]))
+        return False
+
+    def fold(e):
+        arr, idx = e.args
+        ops = []
+        if arr in tables or not leaves(arr, ops) or not ops:
+            return None
+        lens = {b - a for _, a, b in map(part, ops)}
+        if len(lens) != 1:
+            return None             # operands of different lengths: numpy raises or broadcasts, not read
+        vals = _index_values(idx, x, u)
+        if vals is None:
+            return None
+        off = lens.pop()
+        if not all(0 <= v < n + off for (n, _), v in vals.items()):
+            return None
+        return arr.xreplace({t: AT(part(t)[0], idx + part(t)[1]) for t in ops})
+    for _ in range(3):
+        r2 = r.replace(lambda e: _head(e) == "AT" and len(e.args) == 2 and fold(e) is not None, fold)
+        if r2 == r:
+            break
+        r = r2
+    return r
+
+
 def interplin(chk, repo):
     fi = repo.func(ST + "interplin")
     chk.analysed_unit(fi.qualname)
@@ -529,6 +608,7 @@ def interplin(chk, repo):
         chk.ob("R18.interp", "interplin::formula", None, fi.where(), what + " (the returned value was not reduced to a term: %r)" % (r,))
         return
     r = _search_in_part(r, x)
+    r = _elementwise_lookups(r, x, u, (x, v))
     cls = _clamp_classes(r, x, u)
     rk = r.xreplace({e: (K if c == "k" else K + 1) for e, c in cls.items() if c in ("k", "k+1")})
     eq, d = symx.equal(rk, ref)
@@ -746,6 +826,14 @@ class _MatEval:
                 self.env[st.target.id] = self.binop(st.op, self.ev(ast.Name(id=st.target.id, ctx=ast.Load())), self.ev(st.value))
             elif isinstance(st, ast.For):
                 it = st.iter
+                if not (isinstance(it, ast.Call) and call_name(it) == "range" and isinstance(it.func, ast.Name)) and not st.orelse:
+                    # a loop over the rows / entries of arrays (directly, zipped, enumerated): every extent is N, so pass k of the loop
+                    # sees entry k of each of them and k runs over the full extent
+                    k = self.fresh(True, norm(it))
+                    self.bind(st.target, self.items(it, k), st)
+                    self.run(st.body, loops + [k], conditional)
+                    self.close_lists(k)
+                    continue
                 if not (isinstance(it, ast.Call) and call_name(it) == "range" and isinstance(st.target, ast.Name) and 1 <= len(it.args) <= 2 and not st.orelse):
                     raise _NoRec("loop over `%s`" % norm(it))
                 lo = self.ev(it.args[0]) if len(it.args) == 2 else sp.Integer(0)
@@ -758,10 +846,7 @@ class _MatEval:
                 k = self.fresh(bool(lo == 0 and off == 0), norm(it))
                 self.env[st.target.id] = k
                 self.run(st.body, loops + [k], conditional)
-                for name, acc in list(self.env.items()):
-                    if isinstance(acc, _ListAcc) and acc.pending is not None and acc.pending[0] == k:
-                        # the loop ran over the full extent and appended once per pass: element i is the term appended in pass i
-                        self.env[name] = _Arr(1, (lambda i, _v=acc.pending[1], _k=k: _v.xreplace({_k: i})), "expr")
+                self.close_lists(k)
             elif isinstance(st, ast.If):
                 only_raise = all(isinstance(x, (ast.Raise, ast.Expr)) for x in st.body) and any(isinstance(x, ast.Raise) for x in st.body) and not st.orelse
                 if only_raise:
@@ -773,6 +858,37 @@ class _MatEval:
                 self.ret.append((self.ev(st.value) if st.value is not None else None, conditional, st))
             else:
                 raise _NoRec("statement %s at line %s" % (type(st).__name__, st.lineno))
+
+    def close_lists(self, k):
+        for name, acc in list(self.env.items()):
+            if isinstance(acc, _ListAcc) and acc.pending is not None and acc.pending[0] == k:
+                # the loop ran over the full extent and appended once per pass: element i is the term appended in pass i
+                self.env[name] = _Arr(1, (lambda i, _v=acc.pending[1], _k=k: _v.xreplace({_k: i})), "expr")
+
+    def items(self, it, k):
+        """what pass k of a loop over `it` sees: entry k along the first axis of an array, a tuple of those for zip(...), (k, entry)
+        for enumerate(...) counting from 0"""
+        if isinstance(it, ast.Call) and isinstance(it.func, ast.Name) and it.func.id not in self.env:
+            if it.func.id == "zip" and it.args and not it.keywords and not any(isinstance(a, ast.Starred) for a in it.args):
+                return tuple(self.items(a, k) for a in it.args)
+            if it.func.id == "enumerate" and len(it.args) == 1 and not isinstance(it.args[0], ast.Starred):
+                start = kwarg(it, "start")
+                if (start is None and not it.keywords) or (start is not None and len(it.keywords) == 1 and norm(start) == "0"):
+                    return (k, self.items(it.args[0], k))
+            raise _NoRec("loop over `%s`" % norm(it)[:60])
+        v = self.ev(it)
+        if isinstance(v, _Arr):
+            return self.index(v, [k])
+        raise _NoRec("loop over `%s`" % norm(it)[:60])
+
+    def bind(self, t, v, st):
+        if isinstance(t, ast.Name):
+            self.env[t.id] = v
+        elif isinstance(t, (ast.Tuple, ast.List)) and isinstance(v, tuple) and len(v) == len(t.elts) and not any(isinstance(x, ast.Starred) for x in t.elts):
+            for x, y in zip(t.elts, v):
+                self.bind(x, y, st)
+        else:
+            raise _NoRec("loop target `%s`" % norm(t)[:60])
 
     def reject(self, test, truth, loops):
         for t, tr in _split(test, truth):
@@ -1208,11 +1324,27 @@ class _Kw:
         self.base = base
         self.defaults = dict(defaults or {})
         self.known_in = {}          # key -> bool: decided membership in base on this path
+        self.removed = set()        # keys taken out of this dictionary (pop / del): whatever the caller passed under them is gone
 
     def copy(self):
         k = _Kw(self.explicit, self.base, self.defaults)
         k.known_in = dict(self.known_in)
+        k.removed = set(self.removed)
         return k
+
+
+class _Obj:
+    """an instance of a plain record class of the module under analysis (see _PX.record_class): its attributes are what the class's
+    __init__ stored in them; once __init__ has returned nothing is stored in it any more (a later store is not read)"""
+
+    def __init__(self, cls, qual):
+        self.cls = cls
+        self.qual = qual
+        self.attrs = {}
+        self.frozen = False
+
+    def __repr__(self):
+        return "Obj(%s)" % self.cls.name
 
 
 def _t(v):
@@ -1245,7 +1377,8 @@ def _t(v):
 def _kwargs_terms(kw):
     out = [_F("KW_" + k)(_t(v)) for k, v in sorted(kw.explicit.items())]
     if kw.base is not None:
-        out.append(_F("KWREST")(kw.base, *[sp.Symbol("without:" + k) for k, v in sorted(kw.known_in.items()) if v is False]))
+        out.append(_F("KWREST")(kw.base, *([sp.Symbol("without:" + k) for k, v in sorted(kw.known_in.items()) if v is False]
+                                           + [sp.Symbol("removed:" + k) for k in sorted(kw.removed)])))
     out += [_F("KWDEFAULT_" + k)(_t(v)) for k, v in sorted(kw.defaults.items()) if k not in kw.explicit]
     return out
 
@@ -1353,7 +1486,14 @@ class _PX:
             yield x
 
     def stmt0(self, a, st, fi):
-        if isinstance(a, (ast.Pass, ast.Global, ast.Nonlocal, ast.Assert, ast.Delete)):
+        if isinstance(a, ast.Delete):
+            for t in a.targets:
+                if isinstance(t, ast.Subscript) and isinstance(t.value, ast.Name) and isinstance(st.vars.get(t.value.id), (dict, _Kw)):
+                    self.kw_pop(st.vars[t.value.id], self.ev(t.slice, st, fi), [None])
+                elif isinstance(t, ast.Name):
+                    st.vars.pop(t.id, None)
+            yield ("next",), st
+        elif isinstance(a, (ast.Pass, ast.Global, ast.Nonlocal, ast.Assert)):
             yield ("next",), st
         elif isinstance(a, (ast.Import, ast.ImportFrom)):
             for al in a.names:
@@ -1389,7 +1529,13 @@ class _PX:
                 yield x
         elif isinstance(a, ast.For):
             it = a.iter
-            if not (isinstance(it, ast.Call) and call_name(it) == "range" and isinstance(a.target, ast.Name) and 1 <= len(it.args) <= 2):
+            if not (isinstance(it, ast.Call) and call_name(it) == "range" and isinstance(it.func, ast.Name) and "range" not in st.vars):
+                # a loop over the entries of a 1-d array / a python sequence (directly, zipped, enumerated from 0): pass j sees entry j
+                n, item = self.items(it, st, fi)
+                for x in self.loop(a, st, fi, (None, n, item), 0):
+                    yield x
+                return
+            if not (isinstance(a.target, ast.Name) and 1 <= len(it.args) <= 2):
                 raise _NoRec("loop over `%s`" % norm(it))
             lo = self.ev(it.args[0], st, fi) if len(it.args) == 2 else sp.Integer(0)
             hi = self.ev(it.args[-1], st, fi)
@@ -1400,8 +1546,37 @@ class _PX:
         else:
             raise _NoRec("statement %s at line %s" % (type(a).__name__, a.lineno))
 
+    def items(self, it, st, fi):
+        """(number of passes, pass number -> what the loop variable is bound to) for a loop over `it`: the entries of a 1-d array term
+        (entry j is T[j], there are size(T) of them), of a python list / tuple known here, zip(...) of those (as many passes as every one
+        of them allows: only read when they all have the same number of entries) and enumerate(...) counting from 0.  The iterable is
+        evaluated once, before the first pass, as python does."""
+        if isinstance(it, ast.Call) and isinstance(it.func, ast.Name) and it.func.id in ("zip", "enumerate") and it.func.id not in st.vars \
+                and not any(isinstance(x, ast.Starred) for x in it.args):
+            if it.func.id == "zip" and it.args and not it.keywords:
+                parts = [self.items(x, st, fi) for x in it.args]
+                if any(sp.expand(_t(n) - _t(parts[0][0])) != 0 for n, _ in parts[1:]):
+                    raise _NoRec("loop over `%s` (lengths not known to agree)" % norm(it)[:60])
+                return parts[0][0], (lambda j, _p=parts: tuple(f(j) for _, f in _p))
+            if it.func.id == "enumerate" and len(it.args) == 1:
+                start = kwarg(it, "start")
+                if (start is None and not it.keywords) or (start is not None and len(it.keywords) == 1 and norm(start) == "0"):
+                    n, f = self.items(it.args[0], st, fi)
+                    return n, (lambda j, _f=f: (sp.Integer(j), _f(j)))
+            raise _NoRec("loop over `%s`" % norm(it)[:60])
+        if not self.one_d:
+            raise _NoRec("loop over `%s` (rows of an N-by-d array)" % norm(it)[:60])
+        v = self.ev(it, st, fi)
+        if isinstance(v, (list, tuple)):
+            v = list(v)
+            return sp.Integer(len(v)), (lambda j, _v=v: _v[j])
+        if isinstance(v, sp.Basic) and not v.is_number and not _is_mask(v) and not _head(v).startswith("C_") and _head(v) not in ("TUPLE", "ITE", "GET"):
+            return _csize(v), (lambda j, _v=v: _idx(_v, sp.Integer(j)))
+        raise _NoRec("loop over `%s`" % norm(it)[:60])
+
     def loop(self, a, st, fi, rng, j):
-        """one visit of the loop head; rng = (start, trip count) for a counted `for`, None for `while`"""
+        """one visit of the loop head; rng = (start, trip count) for a counted `for`, (None, number of entries, pass -> entry) for a
+        loop over entries, None for `while`"""
         if rng is not None:
             outcomes = self.fork(self.rel(ast.Lt, sp.Integer(j), rng[1]), st)
         else:
@@ -1415,7 +1590,9 @@ class _PX:
             if n >= self.max_body:
                 continue                    # bounded exploration: this path is not followed further
             s2.bodies[id(a)] = n + 1
-            if rng is not None:
+            if rng is not None and rng[0] is None:
+                self.assign(a.target, rng[2](j), s2, fi)
+            elif rng is not None:
                 s2.vars[a.target.id] = sp.expand(rng[0] + j)
             for status, s3 in self.block(a.body, s2, fi):
                 if status[0] in ("next", "continue"):
@@ -1478,11 +1655,29 @@ class _PX:
                 if isinstance(recv, dict):
                     recv.setdefault(k, v)
                 elif k not in recv.explicit:
-                    if recv.base is None or recv.known_in.get(repr(k)) is False:
+                    if recv.base is None or recv.known_in.get(repr(k)) is False or str(_t(k)) in recv.removed:
                         recv.explicit.setdefault(k, recv.defaults.pop(k, v))
                     else:
                         recv.defaults.setdefault(k, v)
+            elif isinstance(recv, (_Kw, dict)) and nm == "pop" and 1 <= len(e.args) <= 2 and not e.keywords:
+                self.kw_pop(recv, self.ev(e.args[0], st, fi), [self.ev(x, st, fi) for x in e.args[1:]])
+            elif isinstance(recv, (_Kw, dict)) and nm in ("clear", "popitem", "__setitem__", "__delitem__", "__ior__"):
+                raise _NoRec("dictionary method `%s`" % nm)
         # every other expression statement (printing, logging) has no effect on the values followed here
+
+    def kw_pop(self, d, k, default):
+        """d.pop(k[, default]): the value the key had (as d.get would give it) and the key is gone from d"""
+        if isinstance(k, (_Opq, list, dict, _Kw)) or (isinstance(k, sp.Basic) and not k.is_number):
+            raise _NoRec("dictionary key %r" % (k,))
+        v = self.kw_get(d, k, default[0] if default else None, must=not default)
+        if isinstance(d, dict):
+            d.pop(k, None)
+        else:
+            d.explicit.pop(k, None)
+            d.defaults.pop(k, None)
+            if d.base is not None:
+                d.removed.add(str(_t(k)))
+        return v
 
     def kw_update(self, recv, args, kws):
         srcs = list(args) + ([kws] if kws else [])
@@ -1503,6 +1698,7 @@ class _PX:
                     low.update(o.defaults)
                     recv.explicit, recv.defaults, recv.base = dict(o.explicit), low, o.base
                     recv.known_in = dict(o.known_in)
+                    recv.removed = set(o.removed)
                 else:
                     recv.explicit.update(o.defaults)
                     recv.explicit.update(o.explicit)
@@ -1526,6 +1722,8 @@ class _PX:
                 d[k] = v
             else:
                 d.explicit[k] = v
+        elif isinstance(t, ast.Attribute) and isinstance(t.value, ast.Name) and isinstance(st.vars.get(t.value.id), _Obj) and not st.vars[t.value.id].frozen:
+            st.vars[t.value.id].attrs[t.attr] = v
         else:
             raise _NoRec("assignment to `%s`" % norm(t))
 
@@ -1612,6 +1810,8 @@ class _PX:
                 return _F("ATTR_" + e.attr)(b)
             if isinstance(b, _Opq):
                 return _Opq(b.text + "." + e.attr)
+            if isinstance(b, _Obj) and e.attr in b.attrs:
+                return b.attrs[e.attr]
             raise _NoRec("attribute `%s`" % norm(e))
         if isinstance(e, (ast.Tuple, ast.List)):
             vals = [self.ev(x, st, fi) for x in e.elts]
@@ -1666,7 +1866,7 @@ class _PX:
                 elif isinstance(b, _Kw):
                     if a in b.explicit or a in b.defaults:
                         r = True
-                    elif b.base is None:
+                    elif b.base is None or (isinstance(a, (str, sp.Basic)) and str(_t(a)) in b.removed):
                         r = False
                     elif repr(a) in b.known_in or str(_t(a)) in b.known_in:
                         r = b.known_in.get(str(_t(a)), b.known_in.get(repr(a)))
@@ -1803,6 +2003,8 @@ class _PX:
         if k in d.explicit:
             return d.explicit[k]
         inb = d.known_in.get(str(_t(k)))
+        if str(_t(k)) in d.removed:
+            inb = False
         if d.base is None or inb is False:
             if k in d.defaults:
                 return d.defaults[k]
@@ -1888,6 +2090,8 @@ class _PX:
                     return self.kw_get(recv, args[0], args[1] if len(args) > 1 else None)
                 if nm == "copy":
                     return dict(recv) if isinstance(recv, dict) else recv.copy()
+                if nm == "pop" and 1 <= len(args) <= 2 and not kws and star is None:
+                    return self.kw_pop(recv, args[0], args[1:])
                 raise _NoRec("dictionary method `%s`" % nm)
             if isinstance(recv, list):
                 raise _NoRec("list method `%s` in an expression" % nm)
@@ -1895,12 +2099,23 @@ class _PX:
                 return self.np_call(nm, [recv] + args, kws, c, method=True)
             if isinstance(recv, _Opq):
                 return _Opq("%s.%s()" % (recv.text, nm))
+            if isinstance(recv, _Obj) and recv.frozen and nm not in recv.attrs and self.repo.has("%s.%s" % (recv.qual, nm)):
+                return self.enter(self.repo.func("%s.%s" % (recv.qual, nm)), [recv] + args, kws, star, st)
             raise _NoRec("method `%s` of %r" % (nm, recv))
         if full is not None and self.repo.has(full):
             tgt = self.repo.func(full)
             if tgt.module is fi.module and tgt.name.startswith("_") and tgt.qualname != fi.qualname:
                 return self.enter(tgt, args, kws, star, st)
             return self.package_call(tgt, args, kws, star)
+        if full is not None and self.repo.class_of(full) is not None:
+            cm, cd = self.repo.class_of(full)
+            if cm is fi.module and self.record_class(cd):
+                # a plain record class of this module: the instance is what its __init__ stores in it
+                obj = _Obj(cd, full)
+                self.enter(self.repo.func(full + ".__init__"), [obj] + args, kws, star, st)
+                obj.frozen = True
+                return obj
+            raise _NoRec("instance of the class `%s`" % cd.name)
         if full is not None and (full.startswith("numpy") or full.startswith("math.") or full.startswith("scipy")):
             if star is not None:
                 raise _NoRec("numpy call with **")
@@ -2004,6 +2219,26 @@ class _PX:
                 raise _NoRec("keyword given twice: %s" % sorted(dup))
             terms += _kwargs_terms(s)
         return _F("C_" + tgt.qualname)(*terms)
+
+    @staticmethod
+    def record_class(cd):
+        """is the class a plain record: no decorators, no bases but object, no metaclass, and a body of nothing but a docstring,
+        __slots__ and undecorated methods, among them __init__ and no other hook into construction or attribute access (so that
+        `C(...)` runs __init__ on a fresh instance, `self.a = v` stores v and `obj.a` reads it back)"""
+        if cd.decorator_list or cd.keywords or any(not (isinstance(b, ast.Name) and b.id == "object") for b in cd.bases):
+            return False
+        names = set()
+        for x in cd.body:
+            if isinstance(x, ast.Expr) and isinstance(x.value, ast.Constant) and isinstance(x.value.value, str):
+                continue
+            if isinstance(x, ast.Assign) and len(x.targets) == 1 and isinstance(x.targets[0], ast.Name) and x.targets[0].id == "__slots__":
+                continue
+            if isinstance(x, ast.FunctionDef) and not x.decorator_list:
+                names.add(x.name)
+                continue
+            return False
+        hooks = {n for n in names if n.startswith("__") and n.endswith("__")} - {"__init__", "__repr__", "__str__", "__len__", "__eq__", "__ne__"}
+        return "__init__" in names and not hooks
 
     def enter(self, tgt, args, kws, star, st):
         if star is not None:
@@ -2655,7 +2890,14 @@ def wmedian(chk, repo):
             sorted_ok = k is not None
             if not sorted_ok and isinstance(rv, sp.Basic) and _head(rv) == "IDX" and rv.args[0] == A and rv.args[1].is_Integer:
                 # (a path that first tests something else, e.g. the size of the input, may return a fixed element rightly: not read)
-                only_weight_tests = all(isinstance(t, sp.Basic) and any(_head(a) == "IDX" and a.args[0] == W for a in t.atoms(sp.core.function.AppliedUndef)) for t, _ in st.cons)
+                # (tests that only keep the scan inside the input -- `size != 0`, `j < size` at the head of a loop over the entries -- and
+                # leave the size unbounded above are not such a special case: the path is taken by inputs of every larger size)
+                n_ = sp.Symbol("n_", integer=True)
+                is_w = lambda t: isinstance(t, sp.Basic) and any(_head(a) == "IDX" and a.args[0] == W for a in t.atoms(sp.core.function.AppliedUndef))
+                sized = [(t.xreplace({SIZE(A): n_, SIZE(W): n_}), tr) for t, tr in st.cons if isinstance(t, sp.Basic) and not is_w(t)]
+                open_above = all(t.free_symbols == {n_} and not t.atoms(sp.core.function.AppliedUndef) - t.atoms(*[REL[o] for o in REL]) for t, _ in sized) \
+                    and _int_bounds(sized, n_, 0)[1] is None and _int_bounds(sized, n_, 0)[2]
+                only_weight_tests = all(isinstance(t, sp.Basic) for t, _ in st.cons) and any(is_w(t) for t, _ in st.cons) and open_above
                 agg.put("wmedian::sorted-scan", False if only_weight_tests else None, lambda: "the value at position %s of the unsorted data is returned" % rv.args[1])
                 continue
             if not sorted_ok and isinstance(rv, sp.Basic) and _head(rv) == "IDX" and rv.args[0] == A and _head(rv.args[1]) == "IDX" and rv.args[1].args[0] == S:
@@ -2736,6 +2978,18 @@ def _kw_effective(call, name):
     return ("caller",) if rest else ("absent",)
 
 
+def _options_withheld(call, callee):
+    """options of the callee that the summary helper took out of the caller's keywords (kw.pop / del kw[...]) before handing them on
+    and does not pass itself: the delegated routine then runs with its own default whatever the caller asked for.  Keys the callee
+    does not name (they would end up in its **ignored keywords) and the switches that only print (verbose / silent) do not count."""
+    gone = set()
+    for a in call.args:
+        if _head(a) == "KWREST":
+            gone |= {str(x)[len("removed:"):].strip("'\"") for x in a.args[1:] if str(x).startswith("removed:")}
+    named = {p for p in callee.params if not p.startswith("*")} - {"verbose", "silent"}
+    return sorted(k for k in gone & named if _kw_effective(call, k)[0] != "explicit")
+
+
 def summary(chk, repo):
     fi = repo.func(ST + "get_stats")
     chk.analysed_unit(fi.qualname)
@@ -2798,7 +3052,9 @@ def summary(chk, repo):
                         kw = _kwterms(c)
                         agg.put("get_stats::options-set[get_err]", _kw_effective(c, "get_err") == ("explicit", TRUE_) and kw.get("arrin") == A
                                 and (kw.get("weights") == _t(w) or (w is None and "weights" not in kw and clip_unweighted_default))
-                                and _kw_effective(c, "get_indices") in (("caller",), ("absent",), ("explicit", FALSE_)), lambda: "call %s" % str(c)[:300])
+                                and _kw_effective(c, "get_indices") in (("caller",), ("absent",), ("explicit", FALSE_))
+                                and not _options_withheld(c, cfi), lambda: "call %s%s" % (str(c)[:300], "".join(
+                                    "; the caller's `%s` is removed from the keywords and not passed on" % k for k in _options_withheld(c, cfi))))
                 elif w is not None:
                     ok = heads == {wmom_q} and len({t.args[0] for t in strip}) == 1 and [int(t.args[1]) for t in strip] == [0, 2, 1]
                     agg.put("get_stats::weighted-roles", ok, lambda: "mean/std/err are %s" % [str(t)[:80] for t in trip])
@@ -2806,7 +3062,9 @@ def summary(chk, repo):
                         c = strip[0].args[0]
                         kw = _kwterms(c)
                         data_ok = (kw.get("arrin") == col and scal) or (kw.get("arrin") == A and not scal)
-                        agg.put("get_stats::options-set[sdev]", _kw_effective(c, "sdev") == ("explicit", TRUE_) and data_ok and kw.get("weights_in") == W, lambda: "call %s" % str(c)[:300])
+                        agg.put("get_stats::options-set[sdev]", _kw_effective(c, "sdev") == ("explicit", TRUE_) and data_ok and kw.get("weights_in") == W
+                                and not _options_withheld(c, repo.func(ST + "wmom")), lambda: "call %s%s" % (str(c)[:300], "".join(
+                                    "; the caller's `%s` is removed from the keywords and not passed on" % k for k in _options_withheld(c, repo.func(ST + "wmom")))))
                         ce = _kw_effective(c, "calcerr")
                         agg.put("get_stats::options-set[calcerr]", ce in (("explicit", TRUE_), ("default", TRUE_)) or (ce == ("caller",) and asked.get("'calcerr'") is True), lambda: "calcerr reaches wmom as %s" % (ce,))
                 else:
